@@ -242,6 +242,9 @@ class WritableVersion(dns.zone.WritableVersion):
             node.flags |= NodeFlags.ORIGIN
         elif self.delegations.is_glue(name):
             node.flags |= NodeFlags.GLUE
+        elif name in self.delegations:
+            # A copied-on-write node starts with no flags, so restore this one too.
+            node.flags |= NodeFlags.DELEGATION
         return (node, name)
 
     def update_glue_flag(self, name: dns.name.Name, is_glue: bool) -> None:
@@ -296,7 +299,7 @@ class WritableVersion(dns.zone.WritableVersion):
         name = self._validate_name(name)
         node = self.nodes.get(name)
         if node is not None:
-            if node.is_delegation():  # pyright: ignore
+            if name in self.delegations:
                 self.delegations.discard(name)
                 self.update_glue_flag(name, False)
             del self.nodes[name]
